@@ -79,6 +79,165 @@ def _cmp_case_eval(cl, closure_term, t, value_term, case, depth=0):
     return None
 
 
+class _NoEval(Exception):
+    pass
+
+
+def _cmp_case_run(cl, closure_term, value_term, case):
+    """The same question answered by running the predicate's MIR for one case: the observed value v and the bound b are two symbols whose comparisons are decided
+    by `case`, everything else (`partial_cmp`, `matches!` on its result, `&&`/`||`, negation) is computed.  No library code is executed: this is an evaluation of
+    the closure's blocks over the four-element domain {v<b, v==b, v>b, v NaN}.  None when something is not modelled."""
+    import re as _re
+    REL = {"lt": -1, "eq": 0, "gt": 1, "un": None}[case]          # ordering of v relative to b
+
+    def cmp(op, x, y):
+        if {x, y} != {"V", "B"}:
+            raise _NoEval("comparison of %r and %r" % (x, y))
+        if REL is None:
+            return op == "Ne"
+        r = REL if x == "V" else -REL
+        return {"Lt": r < 0, "Le": r <= 0, "Gt": r > 0, "Ge": r >= 0, "Eq": r == 0, "Ne": r != 0}[op]
+
+    def load(env, pl):
+        if pl["l"] == 1 and pl["p"]:
+            # a captured variable: (*_1).k / _1.k
+            pr = [q for q in pl["p"] if q[0] != "deref"]
+            if len(pr) == 1 and pr[0][0] == "field":
+                k = pr[0][1]
+                caps = closure_term[3]
+                if k < len(caps) and peel(caps[k]) == value_term:
+                    return "V"
+            raise _NoEval("capture")
+        if pl["l"] not in env:
+            raise _NoEval("unset local")
+        v = env[pl["l"]]
+        for q in pl["p"]:
+            if q[0] == "deref":
+                continue
+            if q[0] == "downcast":
+                continue
+            if q[0] == "field":
+                if isinstance(v, tuple) and v[0] == "opt" and v[1] is not None:
+                    v = v[1]
+                elif isinstance(v, tuple) and v[0] == "tuple":
+                    v = v[1][q[1]]
+                else:
+                    raise _NoEval("field of %r" % (v,))
+            else:
+                raise _NoEval("projection")
+        return v
+
+    def operand(env, op):
+        if op["k"] in ("copy", "move"):
+            return load(env, op["pl"])
+        if op["k"] == "const":
+            if op.get("ty") == "bool":
+                return op.get("val") == "true"
+            if op.get("bits") is not None and op.get("ty") in ("i8", "isize", "u8", "i32", "usize"):
+                b_ = int(op["bits"])
+                return ("int", b_ - 256 if op.get("ty") == "i8" and b_ > 127 else b_)
+            if "Ordering" in (op.get("ty") or ""):
+                for nm, k in (("Less", -1), ("Equal", 0), ("Greater", 1)):
+                    if nm in (op.get("val") or ""):
+                        return ("ord", k)
+        raise _NoEval("operand")
+
+    def rvalue(env, rv):
+        k = rv["k"]
+        if k == "use" or k == "cast":
+            return operand(env, rv["ops"][0])
+        if k == "ref" or k == "rawptr":
+            return load(env, rv["pl"])
+        if k == "binop":
+            x, y = operand(env, rv["ops"][0]), operand(env, rv["ops"][1])
+            if rv["op"] in ("Lt", "Le", "Gt", "Ge", "Eq", "Ne"):
+                if isinstance(x, str) or isinstance(y, str):
+                    return cmp(rv["op"], x, y)
+                if isinstance(x, tuple) and isinstance(y, tuple) and x[0] == y[0] and x[0] in ("int", "ord"):
+                    return {"Lt": x[1] < y[1], "Le": x[1] <= y[1], "Gt": x[1] > y[1], "Ge": x[1] >= y[1], "Eq": x[1] == y[1], "Ne": x[1] != y[1]}[rv["op"]]
+                if isinstance(x, bool) and isinstance(y, bool) and rv["op"] in ("Eq", "Ne"):
+                    return (x == y) == (rv["op"] == "Eq")
+            if rv["op"] in ("BitAnd", "BitOr") and isinstance(x, bool) and isinstance(y, bool):
+                return (x and y) if rv["op"] == "BitAnd" else (x or y)
+            raise _NoEval("binop")
+        if k == "unop":
+            x = operand(env, rv["ops"][0])
+            if rv["op"] == "Not" and isinstance(x, bool):
+                return not x
+            raise _NoEval("unop")
+        if k == "discr":
+            v = load(env, rv["pl"])
+            if isinstance(v, tuple) and v[0] == "opt":
+                return ("int", 0 if v[1] is None else 1)
+            if isinstance(v, tuple) and v[0] == "ord":
+                return ("int", v[1])
+            raise _NoEval("discriminant")
+        if k == "agg":
+            ops = [operand(env, o) for o in rv["ops"]]
+            if rv.get("agg") == "tuple":
+                return ("tuple", ops)
+            if rv.get("agg") == "adt" and rv["adt"].endswith("option::Option"):
+                return ("opt", ops[0] if rv["variant"] == "Some" else None)
+            if rv.get("agg") == "adt" and rv["adt"].endswith("cmp::Ordering"):
+                return ("ord", {"Less": -1, "Equal": 0, "Greater": 1}[rv["variant"]])
+        raise _NoEval("rvalue %s" % k)
+    try:
+        env = {2: "B"}
+        bi, steps = 0, 0
+        while True:
+            steps += 1
+            if steps > 200:
+                raise _NoEval("loop")
+            bb = cl.blocks[bi]
+            for st in bb["stmts"]:
+                if st["k"] == "assign":
+                    if st["pl"]["p"] and not all(q[0] == "deref" for q in st["pl"]["p"]):
+                        raise _NoEval("store to projection")
+                    env[st["pl"]["l"]] = rvalue(env, st["rv"])
+            t = bb["term"]
+            if t["k"] in ("goto", "drop", "assert"):
+                bi = t["target"]
+            elif t["k"] == "return":
+                r = env.get(0)
+                return r if isinstance(r, bool) else None
+            elif t["k"] == "switch":
+                d = operand(env, t["discr"])
+                val = (1 if d else 0) if isinstance(d, bool) else (d[1] if isinstance(d, tuple) and d[0] == "int" else None)
+                if val is None:
+                    raise _NoEval("switch")
+                nxt = None
+                for a in t["arms"]:
+                    av = int(a[0])
+                    if av in (val, val & 0xff, val & 0xffffffffffffffff, val & ((1 << 128) - 1)):
+                        nxt = a[1]
+                bi = nxt if nxt is not None else t["otherwise"]
+            elif t["k"] == "call":
+                nm = (t.get("callee_args") or t.get("callee") or "")
+                args = [operand(env, a) for a in t["args"]]
+                m = _re.search(r"Partial(Ord|Eq)(<[^>]*>)?>::(lt|le|gt|ge|eq|ne|partial_cmp)$", nm) or _re.search(r"<impl f64>::(total_cmp)$", nm)
+                if m and m.group(m.lastindex) in ("lt", "le", "gt", "ge", "eq", "ne") and len(args) == 2:
+                    v = cmp(m.group(3).capitalize(), args[0], args[1])
+                elif m and m.group(m.lastindex) == "partial_cmp" and len(args) == 2 and {args[0], args[1]} == {"V", "B"}:
+                    v = ("opt", None) if REL is None else ("opt", ("ord", REL if args[0] == "V" else -REL))
+                elif _re.search(r"<impl f64>::is_nan$", nm) and len(args) == 1 and args[0] in ("V", "B"):
+                    v = (REL is None) if args[0] == "V" else False
+                elif _re.search(r"Option::<.*>::(is_some|is_none)$", nm) and isinstance(args[0], tuple) and args[0][0] == "opt":
+                    v = (args[0][1] is not None) == nm.endswith("is_some")
+                elif _re.search(r"cmp::Ordering::(is_lt|is_le|is_gt|is_ge|is_eq|is_ne)$", nm) and isinstance(args[0], tuple) and args[0][0] == "ord":
+                    o_ = args[0][1]
+                    v = {"is_lt": o_ < 0, "is_le": o_ <= 0, "is_gt": o_ > 0, "is_ge": o_ >= 0, "is_eq": o_ == 0, "is_ne": o_ != 0}[nm.rsplit("::", 1)[1]]
+                else:
+                    raise _NoEval("call %s" % nm)
+                if t["dest"]["p"] or t.get("target") is None:
+                    raise _NoEval("call dest")
+                env[t["dest"]["l"]] = v
+                bi = t["target"]
+            else:
+                raise _NoEval("terminator")
+    except (_NoEval, KeyError, IndexError, TypeError):
+        return None
+
+
 def _partition_point_scan(f, b, value_term):
     """`bounds.partition_point(|b| !(v <= *b))`: on bounds that are strictly increasing and NaN-free (C08.R1/R2/R7: every stored list passed the gate) the
     index of the first bound with v <= b, found by binary search.  The predicate is evaluated for the four ways v can relate to a bound."""
@@ -92,8 +251,18 @@ def _partition_point_scan(f, b, value_term):
         bounds = peel(c.args[0], transparent=["Deref::deref", "Vec::as_slice"])
         r = cl.term_local(0)
         vals = {case: _cmp_case_eval(cl, closure, r, value_term, case) for case in ("lt", "eq", "gt", "un")}
+        if None in vals.values():
+            vals = {case: _cmp_case_run(cl, closure, value_term, case) for case in ("lt", "eq", "gt", "un")}
         ok = vals == {"lt": False, "eq": False, "gt": True, "un": True}
-        return {"ok": ok, "pred": "v<=b" if ok else "?%s" % vals, "bounds": bounds, "call": c, "kind": "partition_point", "closure": cl, "adapters": [],
+        nan_guard = None
+        if vals == {"lt": False, "eq": False, "gt": True, "un": False}:
+            # `if v.is_nan() { return None }` in front of a search by `bound < v`: NaN never reaches the search (what the NaN edge does instead is the caller's to check: "nan_guard")
+            for bi in b.reachable_blocks():
+                be = b.bool_edges(bi)
+                if be and is_call(be[0], "f64::is_nan") and peel(be[0][2][0]) == value_term and b.edge_dominates(bi, be[2], c.bb) and c.bb not in b.reach(be[1]):
+                    nan_guard = (bi, be[1])
+                    ok = True
+        return {"ok": ok, "nan_guard": nan_guard, "pred": "v<=b" if ok else "?%s" % vals, "bounds": bounds, "call": c, "kind": "partition_point", "closure": cl, "adapters": [],
                 "why": "binary search whose predicate is true for %s" % sorted(k for k, v_ in vals.items() if v_) + " (wanted: exactly the bounds with !(v <= b): gt and NaN)"}
     return None
 
